@@ -271,7 +271,7 @@ def work(shard, seed, tier):
         return Outcome(fails, nontrivial=info["redos"] >= 2, classes=classes, key=case, sample=case)
 
     campaign(acc, strat, execute, n, seed * 1000 + shard["i"], to_case=to_case,
-             budget=Budget(25 if tier == "quick" else 400))
+             budget=Budget(300 if tier == "quick" else 1500))
     return acc
 
 
